@@ -21,6 +21,11 @@ import (
 
 func init() {
 	props["C17"] = prop{Run: runC17, Replay: func(id string, raw json.RawMessage) {
+		var sc c17SynthCase
+		if json.Unmarshal(raw, &sc) == nil && sc.Synth {
+			runC17Synth(id, sc.Bits)
+			return
+		}
 		var c c17Case
 		if json.Unmarshal(raw, &c) == nil {
 			runC17Case(id, &c)
@@ -153,7 +158,14 @@ func runC17(seed uint64, n int, tier string) {
 			}
 		}
 	}
-	parallel(len(cases), func(i int) { runC17Case(caseID("C17", seed, i), cases[i]) })
+	nreal := len(cases)
+	parallel(nreal+32, func(i int) {
+		if i < nreal {
+			runC17Case(caseID("C17", seed, i), cases[i])
+		} else {
+			runC17Synth(caseID("C17", seed, i), i-nreal)
+		}
+	})
 }
 
 func onxCalls(ops []map[string]interface{}, def string) (calls []string, lines []string) {
